@@ -84,7 +84,9 @@ func (o *Oracle) judgeProfileAnswer(e *Exchange) {
 		if !contains(asked, g) {
 			o.violate(e, "C17.A1-cache-repeats-the-directory", fmt.Sprintf("/profile for %s names group %q, which was not asked about (%v)", email, g, asked), "path", "world", "facet", "other-group")
 		}
-		if !o.w.IdP.MemberAtSomeTime(g, email, true) {
+		// (Google asks the directory about the e-mail; Okta's userinfo answers for the owner of the access
+		// token that travels with the question, which a harness-minted session can make someone else)
+		if o.w.Cfg.Provider == "google" && !o.patchedDirectoryAnswers() && !o.w.IdP.MemberAtSomeTime(g, email, true) {
 			o.violate(e, "C17.A1-cache-repeats-the-directory", fmt.Sprintf("/profile says %s is a member of %s; the directory never listed them", email, g), "path", "world", "facet", "never-said")
 		}
 	}
@@ -261,4 +263,15 @@ func (o *Oracle) finishGroups() {
 		}
 		last[g] = x
 	}
+}
+
+// patchedDirectoryAnswers: some scripted 200 answer stood in for the directory in this run, so the
+// model directory's own history is not everything "the directory said" (the wire-level checks still apply).
+func (o *Oracle) patchedDirectoryAnswers() bool {
+	for _, x := range o.w.Log.Ended(0, L3) {
+		if x.Injected != "" && x.Status == 200 {
+			return true
+		}
+	}
+	return false
 }
